@@ -135,7 +135,7 @@ Proof.
 Qed.
 End SemC.
 
-Lemma ditem_eta i : mkI (i_field i) (i_vals i) (i_all i) (i_neg i) = i.
+Lemma ditem_eta i : mkI (i_field i) (i_vals i) (i_all i) (i_neg i) (i_applied i) = i.
 Proof. destruct i; reflexivity. Qed.
 
 (* ---------- scoping by detection item conditions ---------- *)
@@ -249,11 +249,11 @@ Proof.
   set (vals2 := match i_field i with None => _ | Some _ => _ end).
   cbn [rep_list opt_list wrap_neg]. unfold sems, evals. cbn [flat_map]. rewrite !app_nil_r.
   rewrite sem_DD. cbn [eval]. f_equal.
-  assert (S1 : sems asg (map (fun s => DI (mkI (Some s) vals2 (i_all i) true)) l)
+  assert (S1 : sems asg (map (fun s => DI (mkI (Some s) vals2 (i_all i) true (i_applied i))) l)
                = map (fun s => negb (sem_vals asg (Some s) (i_all i) vals2)) l).
   { unfold sems. rewrite flat_map_map. clear Ea E. induction l as [|a l IHl]; [reflexivity|]. cbn [flat_map map]. rewrite IHl.
     cbn [sem opt_list app]. unfold sem_item. cbn [i_neg i_field i_all i_vals]. rewrite xorb_true_l. reflexivity. }
-  assert (S2 : flat_map (fun x => opt_list (eval asg x)) (map (fun t => Entry (mkI (Some t) vals2 (i_all i) false)) l)
+  assert (S2 : flat_map (fun x => opt_list (eval asg x)) (map (fun t => Entry (mkI (Some t) vals2 (i_all i) false (i_applied i))) l)
                = map (fun s => sem_vals asg (Some s) (i_all i) vals2) l).
   { rewrite flat_map_map. clear S1 Ea E. induction l as [|a l IHl]; [reflexivity|]. cbn [flat_map map]. rewrite IHl.
     cbn [eval opt_list app]. unfold sem_item. cbn [i_neg i_field i_all i_vals]. rewrite xorb_false_l. reflexivity. }
@@ -325,6 +325,97 @@ Proof.
   - destruct (str_eqb _ _); [discriminate | reflexivity].
 Qed.
 
+(* ---------- marks (applied_processing_items) ---------- *)
+Section DocInd.
+  Variable P : doc -> Prop.
+  Hypothesis HE : forall i, P (Entry i).
+  Hypothesis HA : forall l, Forall P l -> P (All l).
+  Hypothesis HO : forall l, Forall P l -> P (Any l).
+  Hypothesis HN : forall d, P d -> P (Neg d).
+  Fixpoint doc_ind' (d : doc) : P d :=
+    let go := fix go (l : list doc) : Forall P l :=
+                match l with [] => Forall_nil P | x :: r => Forall_cons x (doc_ind' x) (go r) end in
+    match d with
+    | Entry i => HE i
+    | All l => HA l (go l)
+    | Any l => HO l (go l)
+    | Neg d => HN d (doc_ind' d)
+    end.
+End DocInd.
+
+Lemma map_ext_Forall {A B} (f g : A -> B) l : Forall (fun x => f x = g x) l -> map f l = map g l.
+Proof. induction 1; simpl; [reflexivity | congruence]. Qed.
+
+Lemma doc_of_mark id d : doc_of (mark_det id d) = mark_doc id (doc_of d).
+Proof.
+  induction d as [i | l land IH] using det_ind'; [reflexivity|].
+  cbn [mark_det doc_of]. destruct land; cbn [mark_doc]; rewrite !map_map; f_equal; apply map_ext_Forall; exact IH.
+Qed.
+Lemma sem_item_mark asg id i : sem_item asg (mark_item id i) = sem_item asg i.
+Proof. destruct id; reflexivity. Qed.
+Lemma sem_mark asg id d : sem asg (mark_det id d) = sem asg d.
+Proof.
+  induction d as [i | l land IH] using det_ind'; [cbn [mark_det sem]; rewrite sem_item_mark; reflexivity|].
+  cbn [mark_det]. rewrite !sem_DD. f_equal. unfold sems. rewrite flat_map_map. apply flat_map_ext_Forall.
+  eapply Forall_impl; [|exact IH]. intros x Hx. cbv beta. rewrite Hx. reflexivity.
+Qed.
+Lemma eval_mark asg id d : eval asg (mark_doc id d) = eval asg d.
+Proof.
+  induction d as [i | l IH | l IH | d IH] using doc_ind'; cbn [mark_doc eval].
+  - rewrite sem_item_mark. reflexivity.
+  - f_equal. rewrite flat_map_map. apply flat_map_ext_Forall.
+    eapply Forall_impl; [|exact IH]. intros x Hx. cbv beta. rewrite Hx. reflexivity.
+  - f_equal. rewrite flat_map_map. apply flat_map_ext_Forall.
+    eapply Forall_impl; [|exact IH]. intros x Hx. cbv beta. rewrite Hx. reflexivity.
+  - rewrite IH. reflexivity.
+Qed.
+
+Definition is_repl (r : rep) : bool := match r with Repl _ => true | _ => false end.
+
+(* the marking layer + the scope: exact and semantic local agreement carry over *)
+Lemma layer_exact id im tr touch r i :
+  (im i = true -> map doc_of (rep_list i (tr i)) = opt_list (r i) /\ touch i = is_repl (tr i)) ->
+  map doc_of (rep_list i (marked id (gated im tr) i)) = opt_list (scoped im (smarked id touch r) i).
+Proof.
+  intros H. unfold marked, gated, scoped, smarked. destruct (im i); [|reflexivity].
+  destruct (H eq_refl) as [E T]. rewrite T. destruct (tr i) as [|d|]; cbn [is_repl]; try exact E.
+  cbn [rep_list map] in *. destruct (r i) as [x|]; [|discriminate]. cbn [opt_list option_map] in *.
+  inversion E. rewrite doc_of_mark. reflexivity.
+Qed.
+Lemma layer_sem asg id im tr touch r i :
+  (im i = true -> sems asg (rep_list i (tr i)) = evals asg (opt_list (r i))) ->
+  sems asg (rep_list i (marked id (gated im tr) i)) = evals asg (opt_list (scoped im (smarked id touch r) i)).
+Proof.
+  intros H. unfold marked, gated, scoped, smarked. destruct (im i); [|reflexivity].
+  specialize (H eq_refl).
+  assert (L : sems asg (rep_list i match tr i with Repl d => Repl (mark_det id d) | x => x end) = sems asg (rep_list i (tr i))).
+  { destruct (tr i); try reflexivity. unfold sems. cbn [rep_list flat_map]. rewrite sem_mark. reflexivity. }
+  assert (R : evals asg (opt_list (if touch i then option_map (mark_doc id) (r i) else r i)) = evals asg (opt_list (r i))).
+  { destruct (touch i); [|reflexivity]. destruct (r i); [|reflexivity]. unfold evals. cbn [option_map opt_list flat_map].
+    rewrite eval_mark. reflexivity. }
+  rewrite L, R. exact H.
+Qed.
+
+Lemma existsb_map {A B} (f : A -> B) (p : B -> bool) l : existsb p (map f l) = existsb (fun x => p (f x)) l.
+Proof. induction l; simpl; [reflexivity | rewrite IHl; reflexivity]. Qed.
+
+Lemma fieldmap_touch fm afn i : touch_rename fm afn i = is_repl (fieldmap_item fm afn i).
+Proof.
+  unfold touch_rename, fieldmap_item.
+  assert (E : existsb snd (map (map_ref fm afn) (i_vals i))
+              = existsb (fun v => match v with V (ARef g _ _) => fm (Some g) | _ => false end) (i_vals i)).
+  { rewrite existsb_map. induction (i_vals i) as [|v vs IH]; [reflexivity|]. cbn [existsb]. rewrite IH. f_equal.
+    destruct v as [[ | | | |? ?|g sw ew|? ?| ]|]; try reflexivity. unfold map_ref. destruct (fm (Some g)); reflexivity. }
+  rewrite <- E. destruct (fres_some (afn (i_field i)) && fm (i_field i)) eqn:F.
+  - apply andb_true_iff in F. destruct F as [F _]. destruct (afn (i_field i)); [discriminate | reflexivity | reflexivity].
+  - cbn [orb]. destruct (existsb snd (map (map_ref fm afn) (i_vals i))); reflexivity.
+Qed.
+Lemma value_touch tv i : touch_values tv i = is_repl (value_item tv i).
+Proof.
+  unfold touch_values, value_item. rewrite existsb_map. cbn [snd].
+  destruct (existsb (fun x => is_some (tv (i_field i) x)) (i_vals i)); reflexivity.
+Qed.
+
 (* ---------- one processing item on a rule ---------- *)
 Definition afn_of (t : tspec) : option (option str -> fres) :=
   match t with
@@ -351,19 +442,26 @@ Definition item_exact_ok (c : conds) (t : tspec) (i : ditem) : bool :=
 Definition rule_ok (p : ditem -> bool) (r : rule) : bool :=
   forallb (fun d => forall_items p (snd d)) (r_dets r).
 
+(* the value function of a value transformation *)
+Definition tv_of (t : tspec) : option (option str -> value -> option (list value)) :=
+  match t with
+  | TSetValue a => Some (tv_set a)
+  | TCase m => Some (tv_case m)
+  | TMapString m => Some (tv_mapstring m)
+  | TReplace tbl => Some (tv_replace (tbl_sub tbl))
+  | TConvertStr => Some tv_convert_str
+  | TWildPh k => Some (tv_placeholder k repl_wild)
+  | TValuePh k vars => Some (tv_placeholder k (repl_vars vars))
+  | _ => None
+  end.
+
 (* per-detection step of a processing item (everything except add_condition) *)
 Definition det_step (c : conds) (t : tspec) : det -> det :=
-  match afn_of t, t with
-  | Some afn, _ => walk_top (gated (im_of c) (fieldmap_item (fm_of c) afn))
-  | None, TDrop => walk_top (gated (im_of c) drop_item)
-  | None, TSetValue a => walk_top (gated (im_of c) (value_item (tv_set a)))
-  | None, TCase m => walk_top (gated (im_of c) (value_item (tv_case m)))
-  | None, TMapString m => walk_top (gated (im_of c) (value_item (tv_mapstring m)))
-  | None, TReplace tbl => walk_top (gated (im_of c) (value_item (tv_replace (tbl_sub tbl))))
-  | None, TConvertStr => walk_top (gated (im_of c) (value_item tv_convert_str))
-  | None, TWildPh k => walk_top (gated (im_of c) (value_item (tv_placeholder k repl_wild)))
-  | None, TValuePh k vars => walk_top (gated (im_of c) (value_item (tv_placeholder k (repl_vars vars))))
-  | None, _ => fun d => d
+  match afn_of t, tv_of t, t with
+  | Some afn, _, _ => walk_top (marked (c_id c) (gated (im_of c) (fieldmap_item (fm_of c) afn)))
+  | None, Some tv, _ => walk_top (marked (c_id c) (gated (im_of c) (value_item tv)))
+  | None, None, TDrop => walk_top (gated (im_of c) drop_item)
+  | None, None, _ => fun d => d
   end.
 Definition is_addcond (t : tspec) : bool := match t with TAddCond _ _ _ => true | _ => false end.
 
@@ -371,80 +469,67 @@ Lemma apply_tspec_dets c t r : is_addcond t = false ->
   r_dets (apply_tspec c t r) = map (fun p => (fst p, det_step c t (snd p))) (r_dets r).
 Proof.
   destruct t; try discriminate; intros _; try reflexivity.
-  cbn [apply_tspec det_step afn_of]. rewrite map_ext with (g := fun p => p); [rewrite map_id; reflexivity|].
+  cbn [apply_tspec det_step afn_of tv_of]. rewrite map_ext with (g := fun p => p); [rewrite map_id; reflexivity|].
   intros [a b]; reflexivity.
 Qed.
 
-Lemma subst_top_id d : (forall l, flat_map (subst (fun i => Some (Entry i))) l = l) -> subst_top (fun i => Some (Entry i)) d = d.
-Proof. intros H. destruct d; cbn [subst_top]; rewrite ?H; reflexivity. Qed.
-
-Section DocInd.
-  Variable P : doc -> Prop.
-  Hypothesis HE : forall i, P (Entry i).
-  Hypothesis HA : forall l, Forall P l -> P (All l).
-  Hypothesis HO : forall l, Forall P l -> P (Any l).
-  Hypothesis HN : forall d, P d -> P (Neg d).
-  Fixpoint doc_ind' (d : doc) : P d :=
-    let go := fix go (l : list doc) : Forall P l :=
-                match l with [] => Forall_nil P | x :: r => Forall_cons x (doc_ind' x) (go r) end in
-    match d with
-    | Entry i => HE i
-    | All l => HA l (go l)
-    | Any l => HO l (go l)
-    | Neg d => HN d (doc_ind' d)
-    end.
-End DocInd.
-
-Lemma subst_id d : subst (fun i => Some (Entry i)) d = [d].
+Lemma subst_same r : (forall i, r i = Some (Entry i)) -> forall d, subst r d = [d].
 Proof.
-  induction d as [i | l IH | l IH | d IH] using doc_ind'; cbn [subst opt_list map].
-  - reflexivity.
+  intros H. induction d as [i | l IH | l IH | d IH] using doc_ind'; cbn [subst opt_list map].
+  - rewrite H. reflexivity.
   - f_equal. f_equal. induction IH as [|x l' Hx _ IHl]; [reflexivity|]. cbn [flat_map]. rewrite Hx, IHl. reflexivity.
   - f_equal. f_equal. induction IH as [|x l' Hx _ IHl]; [reflexivity|]. cbn [flat_map]. rewrite Hx, IHl. reflexivity.
   - rewrite IH. reflexivity.
 Qed.
-Lemma subst_top_ident d : subst_top (fun i => Some (Entry i)) d = d.
+Lemma subst_top_same r : (forall i, r i = Some (Entry i)) -> forall d, subst_top r d = d.
 Proof.
-  apply subst_top_id. induction l as [|x l IH]; [reflexivity|]. cbn [flat_map]. rewrite subst_id, IH. reflexivity.
-Qed.
-Lemma subst_scoped_id im d : subst (scoped im (fun i => Some (Entry i))) d = [d].
-Proof.
-  induction d as [i | l IH | l IH | d IH] using doc_ind'; cbn [subst opt_list map].
-  - unfold scoped. destruct (im i); reflexivity.
-  - f_equal. f_equal. induction IH as [|x l' Hx _ IHl]; [reflexivity|]. cbn [flat_map]. rewrite Hx, IHl. reflexivity.
-  - f_equal. f_equal. induction IH as [|x l' Hx _ IHl]; [reflexivity|]. cbn [flat_map]. rewrite Hx, IHl. reflexivity.
-  - rewrite IH. reflexivity.
+  intros H d.
+  assert (G : forall l, flat_map (subst r) l = l).
+  { induction l as [|x l IH]; [reflexivity|]. cbn [flat_map]. rewrite (subst_same r H), IH. reflexivity. }
+  destruct d; cbn [subst_top]; rewrite ?G; reflexivity.
 Qed.
 Lemma scoped_ident im d : subst_top (scoped im (fun i => Some (Entry i))) d = d.
-Proof.
-  assert (H : forall l, flat_map (subst (scoped im (fun i => Some (Entry i)))) l = l).
-  { induction l as [|x l IH]; [reflexivity|]. cbn [flat_map]. rewrite subst_scoped_id, IH. reflexivity. }
-  destruct d; cbn [subst_top]; rewrite ?H; reflexivity.
-Qed.
+Proof. apply subst_top_same. intros i. unfold scoped. destruct (im i); reflexivity. Qed.
+
+(* the documented rewrite of the two walking families *)
+Lemma rw_tspec_rename c t afn : afn_of t = Some afn ->
+  rw_tspec c t = scoped (im_of c) (smarked (c_id c) (touch_rename (fm_of c) afn) (rw_rename (fm_of c) afn)).
+Proof. destruct t; try discriminate; intros E; inversion E; reflexivity. Qed.
+Definition tvs_spec (t : tspec) (tv : option str -> value -> option (list value)) : option str -> value -> list value :=
+  match t with TReplace tbl => tvs_replace (tbl_sub tbl) | _ => tvs_of tv end.
+Lemma rw_tspec_values c t tv : tv_of t = Some tv ->
+  rw_tspec c t = scoped (im_of c) (smarked (c_id c) (touch_values tv) (rw_values (tvs_spec t tv))).
+Proof. destruct t; try discriminate; intros E; inversion E; reflexivity. Qed.
+Lemma afn_tv_disjoint t afn : afn_of t = Some afn -> tv_of t = None.
+Proof. destruct t; try discriminate; reflexivity. Qed.
 
 (* exact agreement of one step on one detection *)
 Lemma det_step_exact c t d : is_addcond t = false ->
   forall_items (item_exact_ok c t) d = true ->
   doc_of (det_step c t d) = subst_top (rw_tspec c t) (doc_of d).
 Proof.
-  intros Ha Hok. unfold rw_tspec.
-  assert (G : forall tr r,
-             (forall i, item_exact_ok c t i = true -> im_of c i = true ->
-                        map doc_of (rep_list i (tr i)) = opt_list (r i)) ->
-             doc_of (walk_top (gated (im_of c) tr) d) = subst_top (scoped (im_of c) r) (doc_of d)).
-  { intros tr r H. apply (walk_top_exact (item_exact_ok c t)); [|exact Hok].
-    intros i Hi. apply gated_exact. intros Him. apply H; assumption. }
-  destruct t; try discriminate Ha; cbn [det_step afn_of];
-    try (apply G; intros i Hi Him;
-         unfold item_exact_ok, item_sem_ok in Hi; cbn [afn_of] in Hi; rewrite Him in Hi; cbn [negb orb andb] in Hi;
-         apply andb_true_iff in Hi; destruct Hi as [H1 H2]; apply negb_true_iff in H2;
-         apply fieldmap_exact; assumption);
-    try (apply G; intros i _ _; apply value_item_exact).
-  - (* drop *) apply G. intros i _ _. reflexivity.
-  - (* replace *) apply G. intros i Hi Him. apply value_item_exact_on. intros v Hv.
-    unfold item_exact_ok, item_sem_ok in Hi. cbn [afn_of] in Hi. rewrite Him in Hi. cbn [negb orb andb] in Hi.
-    rewrite andb_true_r in Hi. apply replace_value_agree. rewrite forallb_forall in Hi. apply Hi, Hv.
-  - (* no-op *) symmetry. apply scoped_ident.
+  intros Ha Hok. unfold det_step.
+  destruct (afn_of t) as [afn|] eqn:Ef.
+  - rewrite (rw_tspec_rename c t afn Ef).
+    apply (walk_top_exact (item_exact_ok c t)); [|exact Hok].
+    intros i Hi. apply layer_exact. intros Him.
+    unfold item_exact_ok, item_sem_ok in Hi. rewrite Ef, Him in Hi. cbn [negb orb andb] in Hi.
+    apply andb_true_iff in Hi. destruct Hi as [H1 H2]. apply negb_true_iff in H2.
+    split; [apply fieldmap_exact; assumption | apply fieldmap_touch].
+  - destruct (tv_of t) as [tv|] eqn:Et.
+    + rewrite (rw_tspec_values c t tv Et).
+      apply (walk_top_exact (item_exact_ok c t)); [|exact Hok].
+      intros i Hi. apply layer_exact. intros Him. split; [|apply value_touch].
+      destruct t; try discriminate Et; inversion Et; subst tv; cbn [tvs_spec]; try apply value_item_exact.
+      apply value_item_exact_on. intros v Hv.
+      unfold item_exact_ok, item_sem_ok in Hi. cbn [afn_of] in Hi. rewrite Him in Hi. cbn [negb orb andb] in Hi.
+      rewrite andb_true_r in Hi. apply replace_value_agree. rewrite forallb_forall in Hi. apply Hi, Hv.
+    + destruct t; try discriminate Ha; try discriminate Ef; try discriminate Et.
+      * (* drop *) apply (walk_top_exact (fun _ => true)).
+        -- intros i _. apply gated_exact. reflexivity.
+        -- clear. induction d as [i | l land IH] using det_ind'; [reflexivity|]. cbn [forall_items].
+           apply forallb_forall. intros x Hx. rewrite Forall_forall in IH. apply IH, Hx.
+      * (* no-op *) symmetry. apply scoped_ident.
 Qed.
 
 (* semantic agreement of one step on one detection (also for negated one-to-many mappings) *)
@@ -454,12 +539,10 @@ Lemma det_step_sem asg c t d : is_addcond t = false ->
 Proof.
   intros Ha Hok.
   destruct (afn_of t) as [afn|] eqn:Ef.
-  - assert (E1 : det_step c t = walk_top (gated (im_of c) (fieldmap_item (fm_of c) afn))).
+  - assert (E1 : det_step c t = walk_top (marked (c_id c) (gated (im_of c) (fieldmap_item (fm_of c) afn)))).
     { unfold det_step. rewrite Ef. reflexivity. }
-    assert (E2 : rw_tspec c t = scoped (im_of c) (rw_rename (fm_of c) afn)).
-    { destruct t; try discriminate Ef; inversion Ef; reflexivity. }
-    rewrite E1, E2. apply (walk_top_sem asg (item_sem_ok c t)); [|exact Hok].
-    intros i Hi. apply gated_sem. intros Him. apply fieldmap_sem.
+    rewrite E1, (rw_tspec_rename c t afn Ef). apply (walk_top_sem asg (item_sem_ok c t)); [|exact Hok].
+    intros i Hi. apply layer_sem. intros Him. apply fieldmap_sem.
     unfold item_sem_ok in Hi. rewrite Ef, Him in Hi. exact Hi.
   - rewrite <- eval_doc_of. f_equal. apply det_step_exact; [exact Ha|].
     assert (Hs : forall i, item_sem_ok c t i = true -> item_exact_ok c t i = true).
@@ -489,7 +572,7 @@ Theorem tspec_exact c t r : rule_exact_ok c t r = true ->
 Proof.
   unfold rule_exact_ok. destruct (is_addcond t) eqn:Ea.
   - intros _. destruct t; try discriminate Ea. unfold rdocs_of. cbn [apply_tspec r_dets rewrite_tspec].
-    apply (dict_set_map doc_of).
+    rewrite <- doc_of_mark. apply (dict_set_map doc_of).
   - cbn [orb]. intros Hok. rewrite (rewrite_tspec_nonadd _ _ _ Ea). unfold rdocs_of.
     rewrite (apply_tspec_dets _ _ _ Ea), !map_map. cbn [fst snd].
     apply map_ext_in. intros [n d] Hin. cbn [fst snd]. f_equal.
@@ -603,18 +686,76 @@ Proof.
   intros H. destruct r as [ds c fs]. unfold map_dets. cbn [r_dets r_cond r_fields]. f_equal.
   induction ds as [|[n d] ds IH]; [reflexivity|]. cbn [map fst snd]. rewrite H, IH. reflexivity.
 Qed.
+Lemma marked_keep id im tr i : im i = false -> rep_list i (marked id (gated im tr) i) = [DI i].
+Proof. intros H. unfold marked, gated. rewrite H. reflexivity. Qed.
 
 (* a processing item whose detection item / field name conditions match no item *)
 Lemma identity_scope c t r : is_addcond t = false -> afn_of t = None ->
   (forall i, im_of c i = false) -> apply_tspec c t r = r.
 Proof.
   intros Ha Hf Him.
-  assert (G : forall tr, map_dets (walk_top (gated (im_of c) tr)) r = r).
-  { intros tr. apply map_dets_id. apply walk_top_same. intros i. unfold gated. rewrite Him. reflexivity. }
-  destruct t; try discriminate; cbn [apply_tspec]; unfold apply_values; try apply G. reflexivity.
+  assert (G : forall tr, map_dets (walk_top (marked (c_id c) (gated (im_of c) tr))) r = r).
+  { intros tr. apply map_dets_id. apply walk_top_same. intros i. apply marked_keep, Him. }
+  destruct t; try discriminate; cbn [apply_tspec]; unfold apply_values; try apply G; try reflexivity.
+  apply map_dets_id. apply walk_top_same. intros i. unfold gated. rewrite Him. reflexivity.
 Qed.
 
-(* field name mapping: a mapping that maps nothing (empty mapping, no matching prefix) *)
+(* value transformations that return "no change" for every value (empty map_string mapping, placeholder
+   transformation whose include list names no placeholder of the rule, ...) *)
+Lemma identity_values c tv r : (forall f v, tv f v = None) -> apply_values c tv r = r.
+Proof.
+  intros H. unfold apply_values. apply map_dets_id. apply walk_top_same. intros i. unfold marked, gated.
+  destruct (im_of c i); [|reflexivity]. unfold value_item.
+  assert (E : existsb (fun p => is_some (snd p)) (map (fun v => (v, tv (i_field i) v)) (i_vals i)) = false).
+  { induction (i_vals i) as [|v vs IH]; [reflexivity|]. cbn [map existsb snd]. rewrite H, IH. reflexivity. }
+  rewrite E. reflexivity.
+Qed.
+
+(* semantic identity: a walk / a rewrite that replaces every item by something of the same meaning *)
+Lemma forall_items_true d : forall_items (fun _ => true) d = true.
+Proof.
+  induction d as [i | l land IH] using det_ind'; [reflexivity|]. cbn [forall_items].
+  apply forallb_forall. intros x Hx. rewrite Forall_forall in IH. apply IH, Hx.
+Qed.
+Lemma sems_marked asg id tr i : sems asg (rep_list i (marked id tr i)) = sems asg (rep_list i (tr i)).
+Proof.
+  unfold marked. destruct (tr i); try reflexivity. unfold sems. cbn [rep_list flat_map]. rewrite sem_mark. reflexivity.
+Qed.
+Lemma walk_top_sem_same asg tr :
+  (forall i, sems asg (rep_list i (tr i)) = [sem_item asg i]) -> forall d, sem asg (walk_top tr d) = sem asg d.
+Proof.
+  intros H d. rewrite (walk_top_sem asg (fun _ => true) tr (fun i => Some (Entry i))).
+  - rewrite subst_top_same by reflexivity. apply eval_doc_of.
+  - intros i _. apply H.
+  - apply forall_items_true.
+Qed.
+Lemma evals_map_neg asg l : evals asg (map Neg l) = map negb (evals asg l).
+Proof.
+  induction l as [|x l IH]; [reflexivity|]. unfold evals in *. cbn [map flat_map eval]. rewrite IH.
+  destruct (eval asg x); reflexivity.
+Qed.
+Lemma subst_sem_same asg r : (forall i, evals asg (opt_list (r i)) = [sem_item asg i]) ->
+  forall d, evals asg (subst r d) = opt_list (eval asg d).
+Proof.
+  intros H. induction d as [i | l IH | l IH | d IH] using doc_ind'; cbn [subst].
+  - apply H.
+  - unfold evals at 1. cbn [flat_map eval]. rewrite app_nil_r. f_equal. f_equal.
+    fold (evals asg (flat_map (subst r) l)). rewrite evals_flat_map. apply flat_map_ext_Forall. exact IH.
+  - unfold evals at 1. cbn [flat_map eval]. rewrite app_nil_r. f_equal. f_equal.
+    fold (evals asg (flat_map (subst r) l)). rewrite evals_flat_map. apply flat_map_ext_Forall. exact IH.
+  - rewrite evals_map_neg, IH. cbn [eval]. destruct (eval asg d); reflexivity.
+Qed.
+Lemma subst_top_sem_same asg r : (forall i, evals asg (opt_list (r i)) = [sem_item asg i]) ->
+  forall d, eval asg (subst_top r d) = eval asg d.
+Proof.
+  intros H d.
+  assert (G : forall l, evals asg (flat_map (subst r) l) = evals asg l).
+  { intros l. rewrite evals_flat_map. unfold evals at 2. apply flat_map_ext. intros x. apply subst_sem_same, H. }
+  destruct d; cbn [subst_top eval]; try reflexivity; fold (evals asg (flat_map (subst r) l)); fold (evals asg l); rewrite G; reflexivity.
+Qed.
+
+(* field name mappings that map nothing (empty mapping, no matching prefix): same meaning of every
+   detection (items holding field references are still marked as processed), condition and fields unchanged *)
 Lemma fieldmap_item_none fm afn i : (forall f, afn f = FNone) -> rep_list i (fieldmap_item fm afn i) = [DI i].
 Proof.
   intros H. unfold fieldmap_item. rewrite H. cbn [fres_some andb].
@@ -627,81 +768,57 @@ Proof.
     unfold rename_ref, targets. rewrite H. destruct (fm (Some g)); reflexivity. }
   rewrite R, ditem_eta. reflexivity.
 Qed.
-Lemma identity_fieldmap c afn r : (forall f, afn f = FNone) -> apply_fieldmap c afn r = r.
+Lemma identity_fieldmap asg c afn r : (forall f, afn f = FNone) ->
+  meanings asg (apply_fieldmap c afn r) = meanings asg r /\
+  r_cond (apply_fieldmap c afn r) = r_cond r /\ r_fields (apply_fieldmap c afn r) = r_fields r.
 Proof.
-  intros H. unfold apply_fieldmap.
-  assert (E : map_dets (walk_top (gated (im_of c) (fieldmap_item (fm_of c) afn))) r = r).
-  { apply map_dets_id. apply walk_top_same. intros i. unfold gated. destruct (im_of c i); [|reflexivity].
-    apply fieldmap_item_none, H. }
-  rewrite E.
-  assert (F : fieldmap_fields (fm_of c) afn (r_fields r) = r_fields r).
-  { unfold fieldmap_fields. induction (r_fields r) as [|f fs IH]; [reflexivity|]. cbn [flat_map]. rewrite IH.
-    unfold afn_list. rewrite H. reflexivity. }
-  rewrite F. destruct r; reflexivity.
+  intros H. unfold apply_fieldmap. cbn [r_cond r_fields]. split; [|split; [reflexivity|]].
+  - unfold meanings, map_dets. cbn [r_dets]. rewrite map_map. apply map_ext. intros [n d]. cbn [fst snd]. f_equal.
+    apply walk_top_sem_same. intros i. rewrite sems_marked. unfold gated. destruct (im_of c i); [|reflexivity].
+    rewrite (fieldmap_item_none _ _ _ H). reflexivity.
+  - unfold fieldmap_fields. induction (r_fields r) as [|f fs IH]; [reflexivity|]. cbn [flat_map]. rewrite IH.
+    unfold afn_list. rewrite H. reflexivity.
 Qed.
 
-(* value transformations that return "no change" for every value (empty map_string mapping, placeholder
-   transformation whose include list names no placeholder of the rule, ...) *)
-Lemma identity_values c tv r : (forall f v, tv f v = None) -> apply_values c tv r = r.
+(* identity instance of replace_string: a substitution that changes no plain form *)
+Lemma rw_replace_id asg c sub i : (forall p, sub p = p) ->
+  evals asg (opt_list (scoped (im_of c) (smarked (c_id c) (touch_values (tv_replace sub)) (rw_values (tvs_replace sub))) i))
+  = [sem_item asg i].
 Proof.
-  intros H. unfold apply_values. apply map_dets_id. apply walk_top_same. intros i. unfold gated.
-  destruct (im_of c i); [|reflexivity]. unfold value_item.
-  assert (E : existsb (fun p => is_some (snd p)) (map (fun v => (v, tv (i_field i) v)) (i_vals i)) = false).
-  { induction (i_vals i) as [|v vs IH]; [reflexivity|]. cbn [map existsb snd]. rewrite H, IH. reflexivity. }
-  rewrite E. reflexivity.
-Qed.
-
-(* ---------- identity instance of replace_string ---------- *)
-Lemma subst_same r : (forall i, r i = Some (Entry i)) -> forall d, subst r d = [d].
-Proof.
-  intros H. induction d as [i | l IH | l IH | d IH] using doc_ind'; cbn [subst opt_list map].
-  - rewrite H. reflexivity.
-  - f_equal. f_equal. induction IH as [|x l' Hx _ IHl]; [reflexivity|]. cbn [flat_map]. rewrite Hx, IHl. reflexivity.
-  - f_equal. f_equal. induction IH as [|x l' Hx _ IHl]; [reflexivity|]. cbn [flat_map]. rewrite Hx, IHl. reflexivity.
-  - rewrite IH. reflexivity.
-Qed.
-Lemma subst_top_same r : (forall i, r i = Some (Entry i)) -> forall d, subst_top r d = d.
-Proof.
-  intros H d.
-  assert (G : forall l, flat_map (subst r) l = l).
-  { induction l as [|x l IH]; [reflexivity|]. cbn [flat_map]. rewrite (subst_same r H), IH. reflexivity. }
-  destruct d; cbn [subst_top]; rewrite ?G; reflexivity.
-Qed.
-(* a substitution that changes no plain form: the documented rewrite is the identity *)
-Lemma rw_replace_id c sub i : (forall p, sub p = p) -> scoped (im_of c) (rw_values (tvs_replace sub)) i = Some (Entry i).
-Proof.
-  intros H. unfold scoped. destruct (im_of c i); [|reflexivity]. unfold rw_values.
+  intros H. unfold scoped. destruct (im_of c i); [|reflexivity]. unfold smarked, rw_values.
   assert (E : flat_map (tvs_replace sub (i_field i)) (i_vals i) = i_vals i).
   { induction (i_vals i) as [|v vs IH]; [reflexivity|]. cbn [flat_map]. rewrite IH.
     destruct v as [[c0 s|n| | | | | | ]|]; try reflexivity; unfold tvs_replace; rewrite H, str_eqb_refl; reflexivity. }
-  rewrite E, ditem_eta. reflexivity.
+  rewrite E, ditem_eta. destruct (touch_values (tv_replace sub) i); unfold evals; cbn [option_map opt_list flat_map eval mark_doc];
+    rewrite ?sem_item_mark; reflexivity.
 Qed.
-Theorem identity_replace c tbl r :
+Theorem identity_replace asg c tbl r :
   (forall p, tbl_sub tbl p = p) ->
-  rule_ok (item_exact_ok c (TReplace tbl)) r = true ->
-  rdocs_of (apply_tspec c (TReplace tbl) r) = rdocs_of r.
+  rule_ok (item_sem_ok c (TReplace tbl)) r = true ->
+  meanings asg (apply_tspec c (TReplace tbl) r) = meanings asg r.
 Proof.
-  intros Hs Hok. rewrite tspec_exact by (unfold rule_exact_ok; rewrite Hok; apply orb_true_r).
-  cbn [rewrite_tspec]. rewrite <- (map_id (rdocs_of r)) at 2. apply map_ext. intros [n d]. cbn [fst snd]. f_equal.
-  apply subst_top_same. intros i. apply (rw_replace_id c (tbl_sub tbl) i Hs).
+  intros Hs Hok. rewrite tspec_sem by (unfold rule_sem_ok; rewrite Hok; apply orb_true_r).
+  cbn [rewrite_tspec]. rewrite <- doc_meanings_of. unfold doc_meanings. rewrite map_map. apply map_ext.
+  intros [n d]. cbn [fst snd]. f_equal. apply subst_top_sem_same. intros i.
+  apply (rw_replace_id asg c (tbl_sub tbl) i Hs).
 Qed.
 
 (* ---------- refutations (replayed against the real code by the correspondence corpus) ---------- *)
-Definition no_conds : conds := mkC true [] false [] false.
+Definition no_conds : conds := mkC None true [] false [] false.
 Definition asg_num (_ : option str) (a : aval) : bool := match a with ANum _ => true | _ => false end.
-Definition kwnum_rule : rule := mkR [([115], DD [DI (mkI None [V (ANum [49])] false false)] true)] [115] [].
+Definition kwnum_rule : rule := mkR [([115], DD [DI (mkI None [V (ANum [49])] false false [])] true)] [115] [].
 Lemma keyword_number_refuted :
   exists asg c t r, meanings asg (apply_tspec c t r) <> doc_meanings asg (rewrite_tspec c t (rdocs_of r)).
 Proof.
   exists asg_num, no_conds, (TFieldMap [(None, FOne [109])]), kwnum_rule. vm_compute. discriminate.
 Qed.
-Definition num_rule : rule := mkR [([115], DD [DI (mkI (Some [103]) [V (ANum [49; 50; 51])] false false)] true)] [115] [].
+Definition num_rule : rule := mkR [([115], DD [DI (mkI (Some [103]) [V (ANum [49; 50; 51])] false false [])] true)] [115] [].
 Lemma replace_number_refuted :
   exists asg c r, meanings asg (apply_tspec c (TReplace []) r) <> meanings asg r.
 Proof. exists asg_num, no_conds, num_rule. vm_compute. discriminate. Qed.
 (* x, backslash, wildcard *)
 Definition bswild_rule : rule :=
-  mkR [([115], DD [DI (mkI (Some [104]) [V (AStr false [PStr [120; 92]; PMulti])] false false)] true)] [115] [].
+  mkR [([115], DD [DI (mkI (Some [104]) [V (AStr false [PStr [120; 92]; PMulti])] false false [])] true)] [115] [].
 Definition asg_wild (_ : option str) (a : aval) : bool :=
   match a with AStr _ s => contains_special s | _ => false end.
 Lemma replace_bswild_refuted :
@@ -709,10 +826,24 @@ Lemma replace_bswild_refuted :
 Proof. exists asg_wild, no_conds, bswild_rule. vm_compute. discriminate. Qed.
 
 (* the repaired one-to-many mapping of a negated item: f|neq: v with f -> [a, b] means not (a=v or b=v) *)
-Definition neq_rule : rule := mkR [([115], DD [DI (mkI (Some [102]) [V (AStr false [PStr [118]])] false true)] true)] [115] [].
+Definition neq_rule : rule := mkR [([115], DD [DI (mkI (Some [102]) [V (AStr false [PStr [118]])] false true [])] true)] [115] [].
 Lemma onetomany_neq_example asg :
   meanings asg (apply_tspec no_conds (TFieldMap [(Some [102], FMany [[97]; [98]])]) neq_rule)
   = [([115], Some (negb (asg (Some [97]) (AStr false [PStr [118]]) || asg (Some [98]) (AStr false [PStr [118]]))))].
 Proof.
   vm_compute. repeat match goal with |- context [asg ?a ?b] => destruct (asg a b) end; reflexivity.
 Qed.
+
+(* a later item scoped by processing_item_applied sees the marks of an earlier one also on the copies of a
+   one-to-many mapping (fix ab135a8): case A; f -> [x, y] B; set_value Z if A applied *)
+Definition chain_rule : rule := mkR [([115], DD [DI (mkI (Some [102]) [V (AStr false [PStr [118]])] false false [])] true)] [115] [].
+Definition cA := mkC (Some [65]) true [] false [] false.
+Definition cC := mkC (Some [67]) true [] false [IApplied [65]] false.
+Lemma chain_marks_example :
+  pipeline_ok [PItem cA (TCase CUpper); PItem no_conds (TFieldMap [(Some [102], FMany [[120]; [121]])]);
+               PItem cC (TSetValue (ANum [49]))] chain_rule = true /\
+  rdocs_of (apply_pipeline [PItem cA (TCase CUpper); PItem no_conds (TFieldMap [(Some [102], FMany [[120]; [121]])]);
+                            PItem cC (TSetValue (ANum [49]))] chain_rule)
+  = [([115], All [Any [Entry (mkI (Some [120]) [V (ANum [49])] false false [[67]; [65]]);
+                       Entry (mkI (Some [121]) [V (ANum [49])] false false [[67]; [65]])]])].
+Proof. split; vm_compute; reflexivity. Qed.
